@@ -277,7 +277,7 @@ func (g *G) intLit(t *Type) string {
 }
 
 var floatLits = []string{"0.0", "1.0", "0.5", "1.5", "2.25", "3.0", "10.0", "0.1", "100.0", "0.125", "7.75", "1e3", "2.5e-3", "1234.5", "0.3"}
-var strLits = []string{`""`, `"a"`, `"go"`, `"goat"`, `"héllo"`, `"x y"`, `"日本"`, `"tab\there"`, `"q\"uote"`, "`raw\\n`", `"Z"`, `"abc"`, `"12"`, `" pad "`, `"€5"`, `"a,b,c"`}
+var strLits = []string{`""`, `"a"`, `"go"`, `"goat"`, `"héllo"`, `"x y"`, `"日本"`, `"tab\there"`, `"q\"uote"`, "`raw\\n`", `"Z"`, `"abc"`, `"12"`, `" pad "`, `"€5"`, `"a,b,c"`, `"a\xffbc"`, `"\x80z"`}
 
 func (g *G) literal(t *Type) string {
 	switch t.K {
